@@ -18,6 +18,7 @@ import (
 	"sort"
 	"strconv"
 	"strings"
+	"unicode/utf8"
 
 	"verifharness/fw"
 
@@ -45,7 +46,9 @@ func init() {
 			"a fault-tolerant parse 'accepts' iff it reports zero errors; its tree is ParseResult.Exprs",
 			"within one comparison all three modes read through the same kind of token.Scanner (window sized to the source, the 128 KiB sliding window, or the sliding window over a short-read io.Reader); tokens longer than the documented 128 KiB window are only read through the source-sized scanner",
 			"a reader panic is treated as its own outcome: three panics agree (C03 judges panics), a panic in only some modes is a disagreement",
-			"layout changes are made only in gaps that follow a complete expression or bracket: the gap after a prefix token (' #' #^ #o #x, a glued sign, #!) is never touched; a non-empty gap is only emptied next to a bracket; whitespace is drawn from space, tab, LF, CRLF; every inserted line comment is followed by LF except at end of input",
+			"layout changes are made only in gaps that follow a complete expression or bracket: the gap after a prefix token (' #' #^ #o #x, a glued sign, #!) is never touched; a non-empty gap is only emptied next to a bracket; whitespace is drawn from the blanks the reader skips (unicode.IsSpace); every inserted line comment is followed by LF except at end of input",
+			"a comment is ;[^\\n]* and the hash-bang line \\A#![^\\n]* (tree-sitter-elps/grammar.js, editors/vscode/syntaxes): it runs to the line feed or the end of input whatever it holds, so half of the inserted comments and three quarters of the re-written hash-bang lines carry text drawn from everything but LF (bare CR at start/middle/end, control bytes incl. NUL, Unicode blanks and line separators, quotes, backslashes, brackets, prefix characters, token-like text, 1-100 KB bodies; bodies past the documented 128 KiB scanner window only with the source-sized scanner); the grammar makes the hash-bang line optional, so it may be added to or dropped from a text",
+			"docs/lang.md: source text is UTF-8; a comment holding invalid UTF-8 (a tenth of the re-layouts may draw one) must still get the same verdict from all three modes and an accepted text must keep its tree, but a rejection of such a text is not judged",
 			"token boundaries come from the public lexer (lexer.New(...).ReadToken); a source whose token positions do not tile the text is skipped for (c) and counted",
 		},
 		Cases: func(tier string) int {
@@ -367,6 +370,7 @@ func c12CheckLayout(w *fw.W, r *fw.RNG, src, kind string, base []*lisp.LVal) {
 		return
 	}
 	w.Max("max_tokens_in_relayout", int64(len(l.sig)))
+	l.allowHuge = kind != "corpus-big" && len(src) < 64<<10
 	for k := 0; k < 2; k++ {
 		chs := l.relayout(r)
 		if len(chs) == 0 {
@@ -376,6 +380,14 @@ func c12CheckLayout(w *fw.W, r *fw.RNG, src, kind string, base []*lisp.LVal) {
 		variant := 0
 		if kind == "corpus-big" || r.Chance(1, 10) {
 			variant = 1 + r.Intn(2)
+		}
+		for _, c := range chs {
+			if c.huge {
+				// a comment longer than the documented 128 KiB window: source-sized scanner only
+				variant = 0
+				w.Count("relayouts_with_comment_beyond_scanner_window", 1)
+				break
+			}
 		}
 		m2 := c12Modes(src2, variant, r)
 		w.Eval(3)
@@ -402,6 +414,12 @@ func c12CheckLayout(w *fw.W, r *fw.RNG, src, kind string, base []*lisp.LVal) {
 			continue
 		}
 		bad, detail := c12LayoutDiff(base, m2)
+		if bad == "becomes-reject" && l.allowInvalid && !utf8.ValidString(src2) && utf8.ValidString(src) {
+			// docs/lang.md: source text is UTF-8.  The modes agreed (above); whether a
+			// comment may hold other bytes is not documented.
+			w.Count("relayouts_rejected_with_invalid_utf8_in_comment_not_judged", 1)
+			continue
+		}
 		if bad == "" {
 			if c12WantSample(w, "c") && kind == "soup-balanced" && len(src) < 200 && len(chs) > 2 {
 				c12Sampled["c"] = true
@@ -412,26 +430,47 @@ func c12CheckLayout(w *fw.W, r *fw.RNG, src, kind string, base []*lisp.LVal) {
 		// isolate a single responsible gap by bisecting the change set (strict reader only)
 		culprit := c12GapChange{class: "multi", left: "?", right: "?"}
 		csrc, cdetail := src2, detail
+		want := bad // "": any failure counts (second pass)
 		fails := func(sub []c12GapChange) (bool, string, string) {
 			s1 := l.apply(sub)
 			m1 := c12ModesResult{strict: c12ReadStrict(s1, variant, r)}
 			b1, d1 := c12LayoutDiff(base, m1)
-			return b1 == bad, s1, d1
-		}
-		cur := chs
-		for len(cur) > 1 {
-			a, b := cur[:len(cur)/2], cur[len(cur)/2:]
-			if ok, _, _ := fails(a); ok {
-				cur = a
-			} else if ok, _, _ := fails(b); ok {
-				cur = b
-			} else {
-				break
+			if want == "" {
+				return b1 != "", s1, d1
 			}
+			return b1 == want, s1, d1
 		}
-		if len(cur) == 1 {
-			if ok, s1, d1 := fails(cur); ok {
-				culprit, csrc, cdetail = cur[0], s1, d1
+		isolate := func() bool {
+			cur := chs
+			for len(cur) > 1 {
+				a, b := cur[:len(cur)/2], cur[len(cur)/2:]
+				if ok, _, _ := fails(a); ok {
+					cur = a
+				} else if ok, _, _ := fails(b); ok {
+					cur = b
+				} else {
+					return false
+				}
+			}
+			if len(cur) == 1 {
+				if ok, s1, d1 := fails(cur); ok {
+					culprit, csrc, cdetail = cur[0], s1, d1
+					return true
+				}
+			}
+			return false
+		}
+		if !isolate() {
+			// No single gap fails in the same way: several changes interact (one
+			// opens a bracket, a later one closes it).  Look for a gap that fails
+			// alone in any way and name the finding after that failure.
+			want = ""
+			if isolate() {
+				m1 := c12ModesResult{strict: c12ReadStrict(csrc, variant, r)}
+				bad, _ = c12LayoutDiff(base, m1)
+				want = bad
+			} else {
+				want = bad
 			}
 		}
 		// shrink the source around the culprit for the report
@@ -451,6 +490,21 @@ func c12CheckLayout(w *fw.W, r *fw.RNG, src, kind string, base []*lisp.LVal) {
 		where := "not-isolated:" + kind // no single gap reproduces it (e.g. it depends on byte positions)
 		if culprit.class != "multi" {
 			where = l.leftClass(culprit.index) + "|" + l.glueClass(culprit)
+			// Is it the text of the comment (the hash-bang line) rather than its place?
+			// Then the finding is named after the class of text that has to be there.
+			head := culprit.index == -1
+			bclass := c12AttributeBody(culprit.text, head, func(text string) bool {
+				c := culprit
+				c.text = text
+				ok, _, _ := fails([]c12GapChange{c})
+				return ok
+			})
+			if bclass != "" {
+				where = "comment-body:" + bclass
+				if head {
+					where = "hashbang-body:" + bclass
+				}
+			}
 		}
 		w.Violation(fmt.Sprintf("layout-dependent:%s:%s", bad, where),
 			fmt.Sprintf("re-layout between %s and %s (%s, new gap %q) %s (source family %s)", culprit.left, culprit.right, culprit.class, culprit.text, bad, kind),
@@ -460,7 +514,13 @@ func c12CheckLayout(w *fw.W, r *fw.RNG, src, kind string, base []*lisp.LVal) {
 }
 
 func c12GapOld(l *c12Layout, c c12GapChange) string {
-	if c.index >= 0 && c.index < len(l.gaps) && c.class != "multi" {
+	if c.class == "multi" {
+		return ""
+	}
+	if c.index == -1 {
+		return l.head
+	}
+	if c.index >= 0 && c.index < len(l.gaps) {
 		return l.gaps[c.index]
 	}
 	return ""
